@@ -25,6 +25,13 @@ variable {V : Type} [CrdtValue V]
 
 def new : ORMap V := ⟨ORSet.new, [], false⟩
 
+/-- the `switch` of Merge for one key: both sides ⇒ `lv.Merge(rv)`, one side ⇒ its clone, none ⇒ nothing -/
+def optMerge : Option V → Option V → Option V
+  | none, none => none
+  | some a, none => some a
+  | none, some b => some b
+  | some a, some b => some (CrdtValue.merge a b)
+
 /-- Set(nodeID, key, value): Add the key; merge into an existing value, else store a clone -/
 def set (m : ORMap V) (n k : Nat) (v : V) : ORMap V :=
   { keys := m.keys.add n k
@@ -55,11 +62,7 @@ def merge (m o : ORMap V) : ORMap V :=
   let ks := m.keys.merge o.keys
   { keys := ks
     values := ks.elements.foldl (fun (vals : AMap V) k =>
-      match m.values.get? k, o.values.get? k with
-      | some lv, some rv => AMap.set vals k (CrdtValue.merge lv rv)
-      | some lv, none => AMap.set vals k lv
-      | none, some rv => AMap.set vals k rv
-      | none, none => vals) ([] : AMap V)
+      AMap.setOpt vals k (optMerge (m.values.get? k) (o.values.get? k))) ([] : AMap V)
     dirty := false }
 
 def delta? (m : ORMap V) : Option (ORMap V) := if m.dirty then some m else none
@@ -72,14 +75,38 @@ def clone (m : ORMap V) : ORMap V := m
 def compact (m : ORMap V) : ORMap V :=
   let ks := m.keys.compact
   { keys := ks
-    values := ks.elements.foldl (fun (vals : AMap V) k =>
-      match m.values.get? k with
-      | some v => AMap.set vals k v
-      | none => vals) ([] : AMap V)
+    values := ks.elements.foldl (fun (vals : AMap V) k => AMap.setOpt vals k (m.values.get? k)) ([] : AMap V)
     dirty := false }
 
 def fromRawState (es : AMap (List Dot)) (clk : AMap Nat) (vals : AMap V) : ORMap V :=
   ⟨ORSet.fromRawState es clk, vals, false⟩
+
+/-- representation invariant (relative to a predicate `RV` on stored values): the key set is a
+    well-formed ORSet, `values` is a map whose domain is exactly `Keys()`, every stored value is `RV` -/
+structure WF (RV : V → Prop) (m : ORMap V) : Prop where
+  keys_wf : m.keys.WF
+  values_sorted : m.values.Sorted
+  dom : ∀ k, (m.values.get? k).isSome ↔ k ∈ m.keys.elements
+  vals : ∀ k v, m.values.get? k = some v → RV v
+
+/-- every map obtainable from `new` by the public API, storing values that satisfy `RV` -/
+inductive Reachable (RV : V → Prop) : ORMap V → Prop
+  | new : Reachable RV new
+  | set {m} (n k : Nat) (v : V) : Reachable RV m → RV v → Reachable RV (m.set n k v)
+  | remove {m} (k : Nat) : Reachable RV m → Reachable RV (m.remove k)
+  | merge {m o} : Reachable RV m → Reachable RV o → Reachable RV (m.merge o)
+  | delta {m d} : Reachable RV m → m.delta? = some d → Reachable RV d
+  | resetDelta {m} : Reachable RV m → Reachable RV m.resetDelta
+  | clone {m} : Reachable RV m → Reachable RV m.clone
+  | compact {m} : Reachable RV m → Reachable RV m.compact
+
+/-- decidable guard of the associativity law on values: every key of the three-way merge that one
+    operand of an inner merge holds is still a key of that inner merge (no key is dropped by a
+    concurrent removal in `x.Merge(y)` or `y.Merge(z)` and brought back by the third operand) -/
+def noResurrect (x y z : ORMap V) : Bool :=
+  (x.keys.merge (y.keys.merge z.keys)).elements.all fun k =>
+    ((!(x.keys.contains k || y.keys.contains k)) || (x.keys.merge y.keys).contains k) &&
+    ((!(y.keys.contains k || z.keys.contains k)) || (y.keys.merge z.keys).contains k)
 
 end ORMap
 end GoaktVerif.Model.Crdt
